@@ -897,6 +897,8 @@ def run(an: Analysis, rep):
     from . import c10, c13
     from .common import SharedRules as _SR
     rep.run(c10.r106_progress, an, rep, "R11.H")
+    from . import c04 as _c04
+    rep.run(_c04.r046_many_kinds, an, rep, "R11.K")
     rep.run(c13.r136, an, _SR(rep, "R11.J", "a jump into the middle of an instruction or past the code makes from_code raise (shared with C13's R13.6): otherwise the returned data names a block "
                                                     "that does not exist and to_code() fails or jumps elsewhere - silently wrong data for a hand-written code object"))
     from .common import SharedRules
